@@ -72,14 +72,15 @@ func kindShort(k int) string {
 // action, and a flow with retries configured on the flow itself.
 const (
 	numCoreShapes = 6
-	numBaseShapes = 9
+	numBaseShapes = 10
 	shSelfRec     = 6
 	shEmptyEdge   = 7
 	shFlowRetry   = 8
+	shDefaultEdge = 9 // the everyday wiring: a connection on the default action next to a named one
 )
 
-var baseSlots = [numBaseShapes]int{1, 2, 3, 3, 2, 2, 2, 3, 2}
-var baseNames = [numBaseShapes]string{"chain1", "chain2", "chain3", "branch", "loop", "nilend", "selfrec", "emptyedge", "flowretry2"}
+var baseSlots = [numBaseShapes]int{1, 2, 3, 3, 2, 2, 2, 3, 2, 3}
+var baseNames = [numBaseShapes]string{"chain1", "chain2", "chain3", "branch", "loop", "nilend", "selfrec", "emptyedge", "flowretry2", "dfltedge"}
 
 func (d *shapeDesc) uses(base int) bool {
 	return d != nil && (d.base == base || d.inner.uses(base))
@@ -115,7 +116,7 @@ func enumShapes(depth int, withReuse bool) []*shapeDesc {
 		d2 = depth
 	}
 	for _, d := range enumShapesN(d2, withReuse, numBaseShapes) {
-		if d.uses(shSelfRec) || d.uses(shEmptyEdge) || d.uses(shFlowRetry) {
+		if d.uses(shSelfRec) || d.uses(shEmptyEdge) || d.uses(shFlowRetry) || d.uses(shDefaultEdge) {
 			res = append(res, d)
 		}
 	}
@@ -181,6 +182,9 @@ func (g *shapeGen) build(d *shapeDesc, path string) *spec {
 	case shEmptyEdge:
 		e(slots[0], "", slots[1]) // a dead edge: a successful node never presents the empty action
 		e(slots[0], "go", slots[2])
+	case shDefaultEdge:
+		e(slots[0], flyt.DefaultAction, slots[1])
+		e(slots[0], "l", slots[2])
 	case shFlowRetry:
 		e(slots[0], "go", slots[1])
 		root.n = 2 // WithMaxRetries(2) on the flow's own BaseNode: a failing child re-runs the whole flow
@@ -189,7 +193,7 @@ func (g *shapeGen) build(d *shapeDesc, path string) *spec {
 }
 
 // shapeActions: the actions a leaf may answer (first = default choice).
-var shapeActions = []flyt.Action{"go", "l", "r", "again", "exit", ""}
+var shapeActions = []flyt.Action{"go", "l", "r", "again", "exit", "", flyt.DefaultAction}
 
 // collectActions: for every leaf, the post answers worth offering: every
 // action connected from the leaf in its own flow, every action connected from
@@ -198,13 +202,17 @@ var shapeActions = []flyt.Action{"go", "l", "r", "again", "exit", ""}
 func collectActions(root *spec) map[*spec][]flyt.Action {
 	acts := map[*spec][]flyt.Action{}
 	seenFlow := map[*spec]bool{}
-	add := func(n *spec, a flyt.Action) {
+	var add func(n *spec, a flyt.Action)
+	add = func(n *spec, a flyt.Action) {
 		for _, x := range acts[n] {
 			if x == a {
 				return
 			}
 		}
 		acts[n] = append(acts[n], a)
+		if a == flyt.DefaultAction {
+			add(n, "") // the empty answer is the other way of saying "default"
+		}
 	}
 	// leavesOf: the leaves that can be the LAST node of flow-node f (conservatively: all its leaves)
 	var leavesOf func(n *spec, seen map[*spec]bool) []*spec
